@@ -401,6 +401,28 @@ func pool64(t *rapid.T, prop string, structural bool) {
 			z := add(build64(t, "new", m), m)
 			log("#%d=build(%s)", z.id, m)
 		},
+		"newDenseBuckets": func(t *rapid.T) {
+			// a block of consecutive buckets at the bottom, in the middle or at the very top of the
+			// key space (ParOr splits the bucket range into chunks per worker)
+			n := rapid.IntRange(2, 24).Draw(t, "nbuckets")
+			var k0 uint64
+			switch rapid.IntRange(0, 2).Draw(t, "place") {
+			case 1:
+				k0 = 1 << 31
+			case 2:
+				k0 = 1<<32 - uint64(n)
+			}
+			m := model.New()
+			for i := 0; i < n; i++ {
+				if rapid.IntRange(0, 3).Draw(t, "skip") == 0 {
+					continue
+				}
+				lo := rapid.SampledFrom(lows32).Draw(t, "low")
+				m.AddRange((k0+uint64(i))<<32+lo, (k0+uint64(i))<<32+min64(lo+uint64(rapid.IntRange(0, 3).Draw(t, "len")), model.Max32))
+			}
+			z := add(build64(t, "dense", m), m)
+			log("#%d=build(%s)", z.id, m)
+		},
 		"queries": func(t *rapid.T) {
 			x := pick(t, "x")
 			queries64(t, x, fail)
